@@ -206,19 +206,14 @@ Definition dp_of (f : fdesc) : option dfilter :=
 
 (* FLOW_DESCRIPTION_SRC_PORT/DEST_PORT payload: native-endian (little-endian) u32 words,
    low port in the upper half, high port in the lower half *)
-Fixpoint unpack_aux (fuel : nat) (bs : list N) : option (list (N * N)) :=
+Fixpoint unpack (bs : list N) : option (list (N * N)) :=
   match bs with
   | [] => Some []
   | b0 :: b1 :: b2 :: b3 :: r =>
-    match fuel with
-    | O => None
-    | S k =>
-      let w := b0 + 256 * b1 + 65536 * b2 + 16777216 * b3 in
-      match unpack_aux k r with Some l => Some ((w / 65536, w mod 65536) :: l) | None => None end
-    end
+    let w := b0 + 256 * b1 + 65536 * b2 + 16777216 * b3 in
+    match unpack r with Some l => Some ((w / 65536, w mod 65536) :: l) | None => None end
   | _ => None
   end.
-Definition unpack (bs : list N) : option (list (N * N)) := unpack_aux (List.length bs) bs.
 
 (* netlink semantics: the last attribute of a type wins *)
 Fixpoint get_attr (t : N) (al : list attr) (cur : option aval) : option aval :=
